@@ -38,6 +38,15 @@ inline LD worst_leading_cond(const Mat& A, size_t n) {
     for (size_t k = 1; k <= n; ++k) { Mat B(k * k); for (size_t i = 0; i < k; ++i) for (size_t j = 0; j < k; ++j) B[i * k + j] = A[i * n + j]; w = std::max(w, cond_inf(B, k)); }
     return w;
 }
+// the library's static row pre-pivot (for each column j the row i>=j of largest |A(i,j)| of the ORIGINAL matrix is swapped
+// into position j of the permutation); returns the pre-pivoted matrix. Used only to decide ADMISSIBILITY of an input for the
+// pivoted strategies ("all leading blocks of the row-pre-pivoted A well conditioned"), never to judge a result.
+inline Mat prepivot(const Mat& A, size_t n) {
+    std::vector<size_t> perm(n); for (size_t i = 0; i < n; ++i) perm[i] = i;
+    for (size_t j = 0; j < n; ++j) { size_t mx = j; for (size_t i = j; i < n; ++i) if (fabsl(A[i * n + j]) > fabsl(A[mx * n + j])) mx = i; if (mx != j) std::swap(perm[j], perm[mx]); }
+    Mat B(n * n); for (size_t i = 0; i < n; ++i) for (size_t j = 0; j < n; ++j) B[i * n + j] = A[perm[i] * n + j];
+    return B;
+}
 // determinant in long double by partial-pivot elimination
 inline LD det(const Mat& A0, size_t n) {
     Mat A = A0; LD d = 1;
